@@ -21,7 +21,7 @@ SCALES = [2.0, 3.0, 0.5, 1.5, 10.0, 0.3048, 1000.0, 7.0, 0.01, 42.0, 1.0]
 PREF = ["k", "m", "M", "da", "c", "µ", "u", "G"]
 SYSTEMS = ["mks", "cgs", "imperial", "galactic", "solar", None]
 VALUES = [1.0, 2.0, 0.25, 3.5, 10.0, -1.5]
-ROUTES = ["plain", "plain", "empty", "lut", "json", "deepcopy", "pickle", "unitcopy_deep", "usys"]
+ROUTES = ["plain", "plain", "empty", "lut", "json", "deepcopy", "pickle", "pickle_pair", "unitcopy_deep", "usys"]
 
 _TOKEN = re.compile(r"[^\W\d]\w*", re.UNICODE)
 
@@ -116,7 +116,7 @@ class Gen:
     def g_new_node(self, w, route=None, src=None):
         r = self.rng
         op = {"k": "new_node", "route": route or r.choice(self.cfg["routes"])}
-        if op["route"] in ("lut", "json", "deepcopy", "pickle", "unitcopy_deep"):
+        if op["route"] in ("lut", "json", "deepcopy", "pickle", "pickle_pair", "unitcopy_deep"):
             op["src"] = src if src is not None else r.randrange(len(w.nodes))
         if op["route"] == "usys":
             op["usys"] = r.choice(["cgs", "mks", "imperial", "galactic"])
@@ -456,6 +456,49 @@ class Gen:
         yield self.g_edit(w, ni, sym)
         yield self.g_probe_string(w, ni, sym=sym)
 
+    def s_shared_units(self, w):
+        """Operations whose unit rule hands back a module-level Unit object (delta_degC from degC - degC, the
+        dimensionless unit from arctan2): done on arrays of a CUSTOM registry, they must leave those shared
+        objects alone."""
+        r = self.rng
+        ni = self.pick_node(w, custom=True)
+        if ni is None:
+            yield self.g_new_node(w, route=r.choice(["plain", "usys", "lut"]))
+            ni = len(w.nodes) - 1
+        u = r.choice(["degC", "degF", "degC", "m", "K"])
+        if u not in w.nodes[ni % len(w.nodes)].model:
+            return
+        yield {"k": "quantity", "node": ni, "h": 0, "v": [r.choice(VALUES), r.choice(VALUES)], "s": u, "route": "ctor", "store": True}
+        ia = w.last_stored
+        yield {"k": "quantity", "node": ni, "h": 0, "v": [r.choice(VALUES), r.choice(VALUES)], "s": u, "route": "ctor", "store": True}
+        ib = w.last_stored
+        for f in r.sample(["sub", "arctan2", "max", "isub", "add"], 3):
+            yield {"k": "binop", "f": f, "x": ia, "y": ib, "store": self.store()}
+        yield {"k": "quantity", "node": 0, "h": 0, "v": 1.0, "s": r.choice(["delta_degC", "delta_degF", "dimensionless"]),
+               "route": "mul", "store": False}
+
+    def s_default_copy(self, w):
+        """A private copy of the DEFAULT registry (deep copy / unpickled / JSON): edits and definitions made
+        through it must stay there."""
+        r = self.rng
+        yield self.g_new_node(w, route=r.choice(["deepcopy", "unitcopy_deep", "pickle", "json", "pickle_pair"]), src=0)
+        ni = len(w.nodes) - 1
+        sym = r.choice(self.syms)
+        kind = r.choice(["define", "define", "add", "modify_default_sym"])
+        if kind == "define":
+            yield {"k": "define_unit", "node": ni, "h": 0, "sym": sym, "v": r.choice(VALUES[:5]),
+                   "s": r.choice(["km", "g", "s", "erg"]), "prefixable": r.random() < 0.5,
+                   "form": r.choice(["tuple", "quantity", "quantity_default"])}
+        elif kind == "add":
+            yield {"k": "add", "node": ni, "h": 0, "sym": sym, "scale": float(r.choice(SCALES)), "dims": r.choice(self.cfg["dims"]),
+                   "prefixable": True}
+        else:
+            yield self.g_modify(w, ni, r.choice(self.defsyms))
+        yield self.g_probe_string(w, 0, sym=sym)
+        yield self.g_probe_string(w, ni, sym=sym)
+        if w.heap:
+            yield self.g_calc(w)
+
     def s_usys_define(self, w):
         """A registry whose default unit system is not mks, and symbols defined in it from (value, unit)
         tuples / quantities: what is stored is value*unit in MKS, whatever the registry converts to."""
@@ -555,7 +598,8 @@ class Gen:
                 ("s_stale", c["w_stale"]), ("s_cross", c["w_cross"]), ("s_refusal", c["w_refusal"]),
                 ("s_default", c["w_default"]), ("s_restart", c["w_restart"]), ("s_usys", c["w_usys"]),
                 ("s_usys_custom", c.get("w_usys_custom", 0)), ("s_usys_define", c["w_usys"] * 0.7),
-                ("s_quotient", 0.5 * c["w_calc"] / 4.0), ("s_empty_define", 0.3 if "empty" in c["routes"] or c["profile"] == "C13" else 0.1),
+                ("s_quotient", 0.5 * c["w_calc"] / 4.0),
+                ("s_shared_units", 0.4 if c["profile"] == "C13" else 0.15), ("s_default_copy", 0.4 if c["profile"] == "C13" else 0.1), ("s_empty_define", 0.3 if "empty" in c["routes"] or c["profile"] == "C13" else 0.1),
                 ("new_node", c["w_new_node"]), ("edit", c["w_edit"]), ("probe", c["w_probe"]),
                 ("calc", c["w_calc"]), ("chaos", c["w_chaos"]),
             ])
@@ -679,6 +723,15 @@ class Sim:
             q = unyt.unyt_quantity(1.0, "", registry=src.reg)
             reg = pickle.loads(pickle.dumps(q)).units.registry
             self.flags["cross_or_restore"] = True
+        elif route == "pickle_pair":
+            # two objects of one registry in ONE payload (pickle memoises the shared table inside a payload):
+            # each restored object must still get a registry of its own
+            q1 = unyt.unyt_quantity(1.0, "", registry=src.reg)
+            q2 = unyt.unyt_array([1.0, 2.0], "", registry=src.reg)
+            r1, r2 = pickle.loads(pickle.dumps((q1, q2)))
+            reg = r1.units.registry
+            extra_reg = r2.units.registry
+            self.flags["cross_or_restore"] = True
         elif route == "unitcopy_deep":
             reg = uo.Unit("", registry=src.reg).copy(deep=True).registry
             self.flags["cross_or_restore"] = True
@@ -689,6 +742,8 @@ class Sim:
         model = dict(reg.lut)
         node = rw.Node(len(w.nodes), "custom", reg, model, reg.unit_system.name)
         w.nodes.append(node)
+        if route == "pickle_pair" and len(w.nodes) < 6:
+            w.nodes.append(rw.Node(len(w.nodes), "custom", extra_reg, dict(extra_reg.lut), extra_reg.unit_system.name))
         return {"n": len(model), "usys": node.usys}
 
     def do_alias(self, op):
@@ -930,7 +985,9 @@ class Sim:
         if (not cross and len(int_nids) == 1 and res is not None and hasattr(res, "units")
                 and k in ("binop", "unop", "unitop", "to", "base", "quantity", "unit", "usys_get") and "exc" not in warm):
             nr = w.node_of(res.units.registry)
-            delta = str(res.units.expr) in ("delta_degC", "delta_degF")  # module-level units handed out by degC - degC
+            # module-level units the unit rules hand out on the pinned tree: delta_degC / delta_degF from
+            # degC - degC, the dimensionless NULL_UNIT from arctan2
+            delta = str(res.units.expr) in ("delta_degC", "delta_degF") or (op.get("f") == "arctan2" and str(res.units.expr) == "1")
             if nr != int_nids[0] and not (delta and nr == 0) and k != "usys_get":
                 self.violate("cross-registry", ["C13"],
                              {"op": op, "operands_node": int_nids[0], "result_node": nr, "result_unit": str(res.units.expr),
